@@ -411,7 +411,8 @@ func TestC17(t *testing.T) {
 
 	// the other direction: tables first
 	fwd := func(rt *rapid.T) {
-		names := []string{"ll", "la", "l", "both", "src", "ls", "e"}
+		// (alias names need not be identifiers)
+		names := []string{"ll", "la", "l", "both", "src", "ls", "e", "ll-a", "..", "2x", "a+b", "@x", "l.", "é"}
 		table := map[string]c17Frag{}
 		for i := rapid.IntRange(1, 5).Draw(rt, "naliases"); i > 0; i-- {
 			nm := rapid.SampledFrom(names).Draw(rt, "alias")
@@ -459,6 +460,55 @@ func TestC17(t *testing.T) {
 		}
 	}
 	runRapid(t, n/3, fwd)
+
+	// an alias that only names another alias
+	ind := func(rt *rapid.T) {
+		names := []string{"ll", "la", "l", "both", "ls", "e", "ll-a", ".."}
+		table := map[string]c17Frag{}
+		for i := rapid.IntRange(1, 4).Draw(rt, "naliases"); i > 0; i-- {
+			nm := rapid.SampledFrom(names).Draw(rt, "alias")
+			f := c17GenFrag(rt, names, true)
+			f.Comment = ""
+			if rapid.IntRange(0, 2).Draw(rt, "newline_in_value") == 0 && len(f.Cmds) > 1 {
+				// a value that spans lines
+				f.Cmds[rapid.IntRange(0, len(f.Cmds)-2).Draw(rt, "nlat")].Sep = rapid.SampledFrom([]string{"\n", " &&\n", ";\n", " |\n"}).Draw(rt, "nlsep")
+			}
+			table[nm] = f
+		}
+		line := c17GenFrag(rt, names, false)
+		c := c17Ind{Src: line.text() + "\n", Aliases: map[string]string{}}
+		for k, v := range table {
+			c.Aliases[k] = v.text()
+		}
+		// the same line through z aliases
+		z := 0
+		for ci := range line.Cmds {
+			for wi := range line.Cmds[ci].Words {
+				w := &line.Cmds[ci].Words[wi]
+				if v, ok := table[w.Name]; ok && w.Name != "" && wi == 0 && rapid.Bool().Draw(rt, "indirect") {
+					z++
+					zn := fmt.Sprintf("z%d", z)
+					c.Aliases[zn] = w.Name + v.Blank
+					w.Text, w.Name = zn, zn
+				}
+			}
+		}
+		if z == 0 {
+			return
+		}
+		c.Indirect = line.text() + "\n"
+		jr.begin("C17", "indirection", c)
+		err := checkC17Ind(c)
+		jr.end()
+		if err != nil {
+			fail(rt, "C17", "indirection", c, "%v", err)
+		}
+		st.Eval(true, c.Src, c.Indirect, fmt.Sprint(c.Aliases))
+		st.Class("indirection_cases")
+		st.Sample(map[string]any{"direct": c.Src, "indirect": c.Indirect, "aliases": c.Aliases})
+	}
+	runRapid(t, n/6, ind)
+	st.Note("indirection: the same kind of tables (values may also span lines here) and lines; each alias used as a command name is also reached through a fresh alias whose value is just its name (plus the trailing blanks of the value): both sources, parsed with the aliases, must give the same program or both an error")
 	st.Note("tables first: 1-5 aliases over 7 names whose values are 1-3 simple commands (optionally behind an assignment word, inside ! { } ( )) joined by ; | && ||, with alias names in command and in argument position, quoted spellings of them, trailing blanks or a comment at the end of the value; the source is such a line (or two lines in a brace group); the replacement is carried out on the structure (a name is not replaced inside its own expansion, the word behind a value that ends in a blank is examined) and the resulting text, parsed without aliases, is the oracle")
 	st.Note("generated program P; random command-position token runs are folded into fresh alias names (values of 1-6 tokens incl. operators, reserved words, assignments, redirections, ending inside compound commands), optionally named like their own first word (self-reference), optionally with a trailing blank whose following word is folded too, optionally chained up to depth 5; alias definitions for words in argument / pattern / quoted positions and for reserved words must never apply; oracle: skeleton(parse(folded, aliases)) == skeleton(P). Plus random alias tables over the same programs for termination only.")
 }
@@ -515,6 +565,53 @@ func checkC17Fwd(c c17Fwd) error {
 }
 
 func init() { reg("C17", "forward", checkC17Fwd) }
+
+// c17Ind: an alias whose value is just the name of another alias behaves
+// like that alias. Both sources are parsed with the same kind of alias text
+// behind them, so values may also span lines here.
+type c17Ind struct {
+	Src      string            `json:"src"`      // uses the aliases directly
+	Indirect string            `json:"indirect"` // uses them through the aliases z1, z2, ...
+	Aliases  map[string]string `json:"aliases"`  // includes the z aliases
+}
+
+func checkC17Ind(c c17Ind) error {
+	parse := func(src string) ([]string, error) {
+		env := interp.NewExecEnv("sh")
+		for k, v := range c.Aliases {
+			env.Aliases[k] = v
+		}
+		type res struct {
+			cmds []ast.Command
+			err  error
+		}
+		done := make(chan res, 1)
+		go func() {
+			cmds, _, err := parser.ParseCommands(env, "c17", src)
+			done <- res{cmds, err}
+		}()
+		select {
+		case r := <-done:
+			if r.err != nil {
+				return nil, r.err
+			}
+			return oracle.Commands(r.cmds, oracle.Exact), nil
+		case <-time.After(30 * time.Second):
+			return nil, fmt.Errorf("alias substitution does not terminate within 30s")
+		}
+	}
+	want, werr := parse(c.Src)
+	got, gerr := parse(c.Indirect)
+	if (werr != nil) != (gerr != nil) {
+		return fmt.Errorf("through an alias that only names the alias: error %v; directly: error %v\ndirect: %q\nindirect: %q\naliases: %q", gerr, werr, c.Src, c.Indirect, c.Aliases)
+	}
+	if werr == nil && !reflect.DeepEqual(got, want) {
+		return fmt.Errorf("an alias that only names another alias gives a different program\ndirect: %q\nindirect: %q\naliases: %q\ngot:  %s\nwant: %s", c.Src, c.Indirect, c.Aliases, strings.Join(got, " "), strings.Join(want, " "))
+	}
+	return nil
+}
+
+func init() { reg("C17", "indirection", checkC17Ind) }
 
 // c17W is a word: Text as written; Name is the alias name it may stand for
 // ("" for quoted spellings, options, assignments).
